@@ -1061,7 +1061,10 @@ pub fn run_history(ch: &mut dyn Chooser, cfg: &Cfg, rep: &mut Report, want: &str
                 break;
             }
         }
-        if !out.is_empty() {
+        // stop at the first violation of the property under test; findings that belong to another
+        // property (e.g. stale id bookkeeping while checking C10) do not end the history, because their
+        // observable consequence for this property may only show a few steps later
+        if out.iter().any(|x| x.prop == want) || out.len() > 50 {
             break;
         }
     }
